@@ -45,7 +45,10 @@ func (b *branch) loadHash(rootGoitPath string) error {
 
 func (b *branch) write(rootGoitPath string) error {
 	branchPath := filepath.Join(rootGoitPath, "refs", "heads", b.Name)
-	f, err := os.Create(branchPath)
+	// write to a temporary file (outside refs/heads, where every file is a branch) and rename it,
+	// so that an interrupted write never leaves a branch without a hash
+	tmpPath := filepath.Join(rootGoitPath, "branch.tmp")
+	f, err := os.Create(tmpPath)
 	if err != nil {
 		return fmt.Errorf("fail to create %s: %w", branchPath, err)
 	}
@@ -53,6 +56,12 @@ func (b *branch) write(rootGoitPath string) error {
 
 	if _, err := f.WriteString(b.hash.String()); err != nil {
 		return fmt.Errorf("fail to write hash(%s): %w", b.hash, err)
+	}
+	if err := f.Close(); err != nil {
+		return fmt.Errorf("fail to write hash(%s): %w", b.hash, err)
+	}
+	if err := os.Rename(tmpPath, branchPath); err != nil {
+		return fmt.Errorf("fail to create %s: %w", branchPath, err)
 	}
 
 	return nil
